@@ -624,7 +624,23 @@ def r5(R):
             "C18.R5", GR, wf.lineno, "write_grain_file_h5", "groups named by list position", "order can no longer be reconstructed from group names")
     srt = [c for c in ast.walk(rf) if isinstance(c, ast.Call) and src(c.func) == "sorted" and c.args and "keys()" in src(c.args[0]) or
            (isinstance(c, ast.Call) and src(c.func) == "sorted" and c.args)]
-    R.shape(len(srt) >= 1, "C18.R5", GR, "read_grain_file_h5", "the sorted(...) over the group names")
+    if not srt:
+        # no sorted(): positive evidence of the defect is a loop that builds the grain list directly from the h5py group's own
+        # iteration order (.keys() / .values() / .items() / the group itself), which is alphabetical in the names
+        rloops = [l for l in ast.walk(rf) if isinstance(l, ast.For) and any(isinstance(c, ast.Call) and isinstance(c.func, ast.Attribute)
+                                                                            and c.func.attr == "from_h5py_group" for c in ast.walk(l))]
+        R.shape(len(rloops) == 1, "C18.R5", GR, "read_grain_file_h5", "the loop that reads the grain groups")
+        it = pyfacts.resolved(rf, rloops[0].iter)
+        while isinstance(it, ast.Call) and src(it.func) in ("list", "iter", "tuple") and len(it.args) == 1:
+            it = it.args[0]
+        if isinstance(it, ast.Call) and isinstance(it.func, ast.Attribute) and it.func.attr in ("keys", "values", "items") and not it.args:
+            it = it.func.value
+        R.shape(isinstance(it, ast.Subscript) or (isinstance(it, ast.Name) and it.id in ("hin", "h5f", "hf")), "C18.R5", GR, "read_grain_file_h5",
+                "the order in which the grain groups are read (%s)" % src(rloops[0].iter)[:60])
+        R.check(False, "C18.R5", GR, rloops[0].lineno, "read_grain_file_h5", "for %s in %s" % (src(rloops[0].target), src(rloops[0].iter)),
+                "the groups are read in h5py's own iteration order, which is alphabetical in the names ('10' before '2'): a file with more "
+                "than 10 grains comes back in another order than it was written")
+        return
     keyf = [src(k.value).replace(" ", "") for k in srt[0].keywords if k.arg == "key"]
     R.check(bool(keyf) and keyf[0] in ("int", "lambdax:int(x)") or (bool(keyf) and re.match(r"^lambda(\w+):int\(\1\)$", keyf[0]) is not None), "C18.R5", GR, rf.lineno, "read_grain_file_h5",
             "groups read back sorted by int(name)", "string sort would put '10' before '2'")
